@@ -132,6 +132,8 @@ def main() -> int:
                 net.uninstall()
 
         o = sim_run(run_case, vcap=5000.0, stepcap=2_000_000)
+        result["vtime"] = o.vtime
+        result["steps"] = o.steps
         if o.kind != "ok":
             result["error"] = f"{o.kind}: {o.exc!r}"
         model = result.get("model")
